@@ -21,6 +21,55 @@ def kind_of(name):
     return None
 
 
+def tables_check():
+    """L0r(b): contents of the real lazy_static tables and of iced's register predicates == the contracts the Kani
+    unit assumes (exhaustive evaluation over all SupportedRegister values on the real crate; finite, complete)."""
+    import re, subprocess
+    from .. import replay
+    txt = open(os.path.join(core.VERIF, "kani/model/regfile.rs")).read()
+    arms = dict((m.group(1), (m.group(2), int(m.group(3)))) for m in re.finditer(r"^\s+(\w+) => \(RegClass::(\w+), (\d+)\),", txt, re.M))
+    Q = ["RIP", "RAX", "RBX", "RCX", "RDX", "RSI", "RDI", "RSP", "RBP", "R8", "R9", "R10", "R11", "R12", "R13", "R14", "R15"]
+    obs = []
+    try:
+        exe = replay.build_axreal()
+        r = subprocess.run([exe, "tables"], capture_output=True, text=True, timeout=120)
+        rows = None
+        for line in r.stdout.split("\n"):
+            if line.startswith("AXREAL-JSON: "):
+                rows = json.loads(line[len("AXREAL-JSON: "):])
+        if rows is None:
+            raise RuntimeError("no table dump: " + (r.stderr or r.stdout)[-300:])
+    except Exception as e:
+        return [core.ob("l0|tables|C07|table-contents-equal-contract", ["C07"], "undecided", "exhaustive-evaluation", "kani_l0", detail=repr(e))], 0
+    bad = []
+    seen = set()
+    for row in rows:
+        n = row["reg"]
+        seen.add(n)
+        if n not in arms:
+            bad.append("%s: no contract entry" % n)
+            continue
+        cls, k = arms[n]
+        want_parent = Q[k] if cls in ("Q", "D", "W", "Bl", "Bh") else None
+        if row["parent"] != want_parent:
+            bad.append("%s: REGISTER_TO_QWORD gives %s, contract %s" % (n, row["parent"], want_parent))
+        if row["high"] != (cls == "Bh"):
+            bad.append("%s: HIGHER_BYTE_REGISTERS membership %s, contract %s" % (n, row["high"], cls == "Bh"))
+        want = dict(gpr8=cls in ("Bl", "Bh"), gpr16=cls == "W", gpr32=cls == "D", gpr64=cls == "Q", xmm=cls == "X", ip=cls in ("Ip", "Eip"))
+        for f, v in want.items():
+            if row[f] != v:
+                bad.append("%s: iced %s is %s, contract %s" % (n, f, row[f], v))
+        if row["iced"] != n:
+            bad.append("%s: From<SupportedRegister> for Register gives %s" % (n, row["iced"]))
+    for n in arms:
+        if n not in seen:
+            bad.append("%s: missing from the real enum / conversion panics" % n)
+    st = "failed" if bad else "discharged"
+    return [core.ob("l0|tables|C07|table-contents-equal-contract", ["C07"], st, "exhaustive-evaluation", "kani_l0",
+                    detail="; ".join(bad[:20]), location="src/state/registers.rs::REGISTER_TO_QWORD/HIGHER_BYTE_REGISTERS/From impls",
+                    extra=dict(rows=len(rows)))], len(rows)
+
+
 def run(tier="quick", prop=None, log=print):
     pre = PROP_PREFIX.get(prop, ("l0r", "l0f", "l0t"))
     hs = [h for h in K.plan_l0() if h["name"].startswith(pre)]
@@ -72,5 +121,9 @@ def run(tier="quick", prop=None, log=print):
         explanation="loop-free (bounded only by the fixed 32-byte window / 86 enum values, fully unrolled with unwinding assertions) => complete over all registers, prior contents and values",
         l0_stats=st,
     )
+    if prop in (None, "C07"):
+        tob, nrows = tables_check()
+        obs += tob
+        info["tables_rows_evaluated"] = nrows
     _cache[key] = (obs, info)
     return obs, info
